@@ -299,4 +299,125 @@ evaluation on each side (what `where_fin(l,p)` establishes): then each side's va
 theorem contrast_side_no_overwrite (es : List ((Key × Key) × Rat)) (h : (es.map (·.1)).Nodup) : lastWins [] es = es :=
   lastWins_nodup es [] (by simpa using h)
 
+
+/-! ### `plot_contrast` (Phase 4): what is averaged, and over which pairs -/
+
+/-- Everything `plot_contrast` computes before it draws — `raw_contrast`, the contrast of every pair (`'diff'`: `l2-l1`,
+`'prob'`: `int(l2-l1 > 0)`), point estimate and error sizes per x (any `PointAndInterval` object, any `errevery`), the
+win / tie / loss lines — fed with the values the code computes equals the same computation over the directly
+computed progressive / windowed / final averages; errors included.  Unconditional. -/
+theorem plot_contrast_eq_spec (r : Result) (sels1 sels2 : List (List (Tbl × Option Nat × Int))) (pc : List Col)
+    (x : XSpec) (span : Option Nat) (strX : Bool) (xord : Option (List (Key × Key))) (mode : CMode) (ci : Option CiFn)
+    (errevery : Option Nat) (kind : XKind) :
+    plotContrast r sels1 sels2 pc x span strX xord mode ci errevery kind =
+    plotContrastS r sels1 sels2 pc x span strX xord mode ci errevery kind :=
+  plotContrast_eq_spec r sels1 sels2 pc x span strX xord mode ci errevery kind
+
+/-- Only correctly paired runs contribute and the plotted value is their arithmetic mean: whenever `plot_contrast`
+(no interval object) hands lines to the plotter there are the two sides' directly computed values `L1`, `L2` and a
+table `tbl` such that (1) every x of the table has at least one pair and its pairs are exactly the formed pairs with
+that x, (2) every formed pair takes its first value from an entry of side 1 and its second from an entry of side 2
+**with the same pairing value** (same position for `x='index'`), and (3) the plotted points are
+`y(x) = Σ contrast(pair) / #pairs` with error size 0, arranged into lines by `contrastLines`.
+For all Results, labels, `l/p/x`, spans, modes, `errevery`. -/
+theorem plot_contrast_mean_of_paired (r : Result) (sels1 sels2 : List (List (Tbl × Option Nat × Int))) (pc : List Col)
+    (x : XSpec) (span : Option Nat) (strX : Bool) (xord : Option (List (Key × Key))) (mode : CMode)
+    (errevery : Option Nat) (kind : XKind) (lines : List (List CPoint))
+    (h : plotContrast r sels1 sels2 pc x span strX xord mode none errevery kind = .ok lines) :
+    ∃ (L1 L2 : List ((Key × Key) × Rat)) (tbl : List ((Key × Key) × List (Rat × Rat))),
+      sideValsAll allEntriesS r pc x span sels1 = .ok L1 ∧ sideValsAll allEntriesS r pc x span sels2 = .ok L2 ∧
+      (∀ e ∈ tbl, e.2 ≠ [] ∧ ∀ q, q ∈ e.2 ↔ (e.1, q) ∈ contrastPairs (x = .index) L1 L2) ∧
+      (∀ e ∈ contrastPairs (x = .index) L1 L2, PairedFrom (x = .index) L1 L2 e) ∧
+      lines = contrastLines kind (boundaryOf mode) (tbl.map (meanPoint mode)) :=
+  plotContrast_points r sels1 sels2 pc x span strX xord mode errevery kind lines h
+
+/-- non-vacuity: on a 2-environment, 2-learner Result the hypothesis holds (the plotter receives lines) -/
+example : (match plotContrast cexPlot [[(Tbl.lrn, none, 0)]] [[(Tbl.lrn, none, 1)]] [Col.eid] (.cols [Col.eid]) none true
+    (some [([0],[0]),([1],[1])]) .diff none none .other with
+    | .ok lines => lines.map (fun (l : List CPoint) => l.map (fun p => (p.x.1, p.y))) == [[], [], [([1], 1), ([0], 2)]]
+    | .error _ => false) = true := by decide +kernel
+
+/-- completeness of the pairing for a parameter x: any two entries of the two sides with the same pairing value are contrasted -/
+theorem contrast_pairs_complete (L1 L2 : List ((Key × Key) × Rat)) (u w : (Key × Key) × Rat)
+    (hu : u ∈ L1) (hw : w ∈ L2) (h : u.1.1 = w.1.1) :
+    ((u.1.2, w.1.2), (u.2, w.2)) ∈ contrastPairs false L1 L2 :=
+  contrastPairs_complete L1 L2 u w hu hw h
+
+/-- the pairs under one x of a `raw_contrast` table are never empty and are exactly the formed pairs with that x;
+the x labels are distinct -/
+theorem raw_contrast_table_spec (ps : List ((Key × Key) × (Rat × Rat))) :
+    ((groupPairs ps).map (·.1)).Nodup ∧ ∀ e ∈ groupPairs ps, e.2 ≠ [] ∧ ∀ q, q ∈ e.2 ↔ (e.1, q) ∈ ps :=
+  ⟨groupPairs_keys_nodup ps, fun e he => groupPairs_spec ps e he⟩
+
+/-- the win / tie / loss lines (x neither `'index'` nor `l`): every point with non-negative error sizes lies in
+exactly one line — line 0 iff its interval is below the boundary, line 2 iff above, line 1 iff it contains the
+boundary — each line is ascending in y and contains plotted points only -/
+theorem contrast_lines_partition (b : Rat) (pts : List CPoint) (p : CPoint) :
+    splitLines b pts = [sortY (pts.filter (fun p => p.y + p.hi < b)),
+                        sortY (pts.filter (fun p => p.y - p.lo ≤ b ∧ b ≤ p.y + p.hi)),
+                        sortY (pts.filter (fun p => b < p.y - p.lo))] ∧
+    (p ∈ pts → 0 ≤ p.lo → 0 ≤ p.hi →
+      ((p.y + p.hi < b ∧ p ∈ (splitLines b pts)[0]! ∧ p ∉ (splitLines b pts)[1]! ∧ p ∉ (splitLines b pts)[2]!) ∨
+       (p.y - p.lo ≤ b ∧ b ≤ p.y + p.hi ∧ p ∉ (splitLines b pts)[0]! ∧ p ∈ (splitLines b pts)[1]! ∧ p ∉ (splitLines b pts)[2]!) ∨
+       (b < p.y - p.lo ∧ p ∉ (splitLines b pts)[0]! ∧ p ∉ (splitLines b pts)[1]! ∧ p ∈ (splitLines b pts)[2]!))) ∧
+    (∀ line ∈ splitLines b pts, line.Pairwise (fun a c => a.y ≤ c.y) ∧ ∀ q ∈ line, q ∈ pts) :=
+  splitLines_spec b pts p
+
+/-! ### binary64 exactness bound behind the exact float comparison -/
+
+/-- dyadic inputs `m/2^k`, `|m| ≤ B`, and `len·B ≤ 2^53` ⇒ every window sum is `m'/2^k` with `|m'| ≤ 2^53`, i.e. a
+binary64 number (named law `float_exact_boundary`: integers up to `2^53` are exact) — hence every running sum the
+implementation forms is exact and each average is a single correctly rounded division -/
+theorem window_sum_fits_binary64 (k B : Nat) (vs : List Rat) (h : ∀ x ∈ vs, DyadicBdd k B x)
+    (hb : vs.length * B ≤ 2 ^ 53) (span : Option Nat) (i : Nat) :
+    ∃ m : Int, sumL (window span i vs) = (m : Rat) / 2 ^ k ∧ m.natAbs ≤ 2 ^ 53 :=
+  window_sum_fits_binary64' k B vs h hb span i
+
+/-- the named law at its boundary, evaluated on the kernel's binary64: `2^53-1+1 = 2^53` exactly, `2^53+1` is no
+longer representable (rounds to `2^53`), `2^53-1` is; the same one scale step down (`k = 2`) -/
+theorem float_exact_boundary :
+    ((9007199254740991 : Float) + 1 == 9007199254740992) = true ∧
+    ((9007199254740992 : Float) + 1 == 9007199254740992) = true ∧
+    ((9007199254740992 : Float) - 1 == 9007199254740991) = true ∧
+    ((0.25 : Float) * 9007199254740991 + 0.25 == 0.25 * 9007199254740992) = true :=
+  float_exact_boundary'
+
+
+/-! ### translator obligations: literals of `plot_contrast` / `raw_contrast` / `_confidence` extracted by `ast` from the current
+source (`Generated/C18Modes.lean`, regenerated on every run) equal what the model implements — an edit of those literals breaks one of these -/
+
+/-- the `mode` strings are `'diff'`, `'prob'` in this order -/
+theorem plot_modes_match : Coba.Generated.C18.modes = [modeName .diff, modeName .prob] := plot_modes_match'
+
+/-- `_boundary = 0 if mode == 'diff' else .5` -/
+theorem plot_boundaries_match :
+    Coba.Generated.C18.boundaries.map (fun b => (b.1 : Rat) / (b.2 : Rat)) = [boundaryOf .diff, boundaryOf .prob] :=
+  plot_boundaries_match'
+
+/-- `err` dispatch strings, the special x `'index'`, the comparison operators of the win/tie/loss split, `(i+1) % errevery` -/
+theorem plot_tables_match : Coba.Generated.C18.errNames = errNamesM ∧ Coba.Generated.C18.xSpecial = xSpecialM ∧
+    Coba.Generated.C18.splitOps = splitOpsM ∧ Coba.Generated.C18.skipOffset = skipOffsetM := plot_err_names_match'
+
+/-- the two `contraster` lambdas, read off the source (`t[i]-t[j]`, `int(t[i]-t[j] <op> c)`), are the model's `contrastOf` -/
+theorem plot_contraster_match (t : Rat × Rat) :
+    contrastOf .diff t = pairProj Coba.Generated.C18.diffIdx.1 t - pairProj Coba.Generated.C18.diffIdx.2 t ∧
+    contrastOf .prob t = (if cmpOp Coba.Generated.C18.probOp
+        (pairProj Coba.Generated.C18.diffIdx.1 t - pairProj Coba.Generated.C18.diffIdx.2 t)
+        ((Coba.Generated.C18.probThreshold.1 : Rat) / (Coba.Generated.C18.probThreshold.2 : Rat)) = true then 1 else 0) :=
+  plot_contraster_match' t
+
+/-- the win / tie / loss split with the source's comparison operators is the model's `splitLines` -/
+theorem plot_split_match (b : Rat) (pts : List CPoint) :
+    splitLines b pts =
+      [ sortY (pts.filter (fun p => cmpOp (Coba.Generated.C18.splitOps.getD 0 "") (p.y + p.hi) b)),
+        sortY (pts.filter (fun p => cmpOp (Coba.Generated.C18.splitOps.getD 1 "") (p.y - p.lo) b &&
+                                    cmpOp (Coba.Generated.C18.splitOps.getD 2 "") b (p.y + p.hi))),
+        sortY (pts.filter (fun p => cmpOp (Coba.Generated.C18.splitOps.getD 3 "") b (p.y - p.lo))) ] :=
+  plot_split_match' b pts
+
+/-- default `errevery` for `x='index'`: `max(int(last*0.05),1)` with the source's factor -/
+theorem plot_errevery_match (n : Nat) :
+    errEveryOf true none n = max (n * Coba.Generated.C18.errEveryFactor.1 / Coba.Generated.C18.errEveryFactor.2) 1 :=
+  plot_errevery_match' n
+
 end Coba.C18
